@@ -142,6 +142,7 @@ class Exec:
         self.ended = None
         self.opn = 0
         self.dead: set[int] = set()
+        self.valid_ports_only = False
 
     def node(self, k):
         return self.handles[k]
@@ -169,10 +170,16 @@ class Exec:
             self.handles.append(n)
         elif k == "add_link":
             s, t = self.node(st[1]), self.node(st[3])
+            if self.valid_ports_only and not (_port_exists(h, s, st[2], "out")
+                                              and _port_exists(h, t, st[4], "in")):
+                return
             h.add_link(s.out(st[2]), t.inp(st[4]))
             m.add_link(s.idx, st[2], t.idx, st[4])
         elif k == "add_order_link":
             s, t = self.node(st[1]), self.node(st[2])
+            if self.valid_ports_only and not (_port_exists(h, s, -1, "out")
+                                              and _port_exists(h, t, -1, "in")):
+                return
             h.add_order_link(s, t)
             m.add_order_link(s.idx, t.idx)
         elif k == "delete_link":
@@ -236,3 +243,100 @@ def _node(i):
     from hugr import Node
 
     return Node(i)
+
+
+def _port_exists(h, node, off, direction):
+    """does the op of `node` have this port, judged on its serialized form (wire port table)?"""
+    from vf.oracles import wire
+    from vf.oracles.observe import enc_op
+
+    try:
+        ports = wire.op_ports({"parent": 0, **enc_op(h[node].op)})
+    except Exception:  # noqa: BLE001
+        return False
+    if off == -1:
+        return ports["other_" + direction] == "order"
+    return 0 <= off < len(ports[direction])
+
+
+def apply_history(h, hist, valid_ports_only=False):
+    """Apply a history to an existing real Hugr (no model): handle k = k-th node of h in iteration
+    order at the start, then nodes in creation order.  Steps that name missing/dead handles or would
+    delete a non-leaf are skipped (with valid_ports_only also links to ports the ops do not have).
+    Returns the number of applied steps."""
+    from hugr import ops, tys, val
+    from hugr.exceptions import ParentBeforeChild
+
+    handles = list(h)
+    dead: set[int] = set()
+    applied = 0
+    opn = 0
+
+    def ok(*ks):
+        return all(k < len(handles) and k not in dead for k in ks)
+
+    for st in hist:
+        k = st[0]
+        if k == "add_node" and ok(st[1]):
+            opn += 1
+            op = ops.Custom(f"hop{opn}", tys.FunctionType([tys.Bool] * 4, [tys.Bool] * 4), extension="hist")
+            kw = {}
+            if st[2] is not None:
+                kw["num_outs"] = st[2]
+            if st[3] is not None:
+                kw["metadata"] = dict(st[3])
+            handles.append(h.add_node(op, handles[st[1]], **kw))
+        elif k == "add_const" and ok(st[1]):
+            handles.append(h.add_const(val.TRUE, handles[st[1]]))
+        elif k == "add_link" and ok(st[1], st[3]):
+            if valid_ports_only and not (_port_exists(h, handles[st[1]], st[2], "out")
+                                         and _port_exists(h, handles[st[3]], st[4], "in")):
+                continue
+            h.add_link(handles[st[1]].out(st[2]), handles[st[3]].inp(st[4]))
+        elif k == "add_order_link" and ok(st[1], st[2]):
+            if valid_ports_only and not (_port_exists(h, handles[st[1]], -1, "out")
+                                         and _port_exists(h, handles[st[2]], -1, "in")):
+                continue
+            h.add_order_link(handles[st[1]], handles[st[2]])
+        elif k == "delete_link" and ok(st[1], st[3]):
+            h.delete_link(handles[st[1]].out(st[2]), handles[st[3]].inp(st[4]))
+        elif k == "delete_node" and ok(st[1]):
+            n = handles[st[1]]
+            if n.idx == h.root.idx or h.children(n):
+                continue
+            h.delete_node(n)
+            dead.add(st[1])
+        elif k == "insert" and ok(st[1]):
+            sub = Exec()
+            sub.valid_ports_only = valid_ports_only
+            for s2 in st[2]:
+                if sub.applicable(s2):
+                    sub.step(s2)
+            try:
+                mapping = h.insert_hugr(sub.h, handles[st[1]])
+            except ParentBeforeChild:
+                return applied
+            handles.extend(mapping[n] for n in sub.h)
+        else:
+            continue
+        applied += 1
+    return applied
+
+
+def gen_history_on(r, n_existing, max_steps=20, metadata=True):
+    """history whose steps also address the n_existing nodes a HUGR already has"""
+    hist = gen_history(r, max_steps=max_steps, max_nodes=8, metadata=metadata)
+    if n_existing <= 1:
+        return hist
+    out = []
+    for st in hist:
+        st = list(st)
+        refs = {"add_node": [1], "add_const": [1], "add_link": [1, 3], "add_order_link": [1, 2],
+                "delete_link": [1, 3], "delete_node": [1], "insert": [1]}[st[0]]
+        for i in refs:
+            # handle 0 (root) stays; others are shifted behind the existing nodes, and with some
+            # probability redirected to an existing node
+            if st[i] != 0:
+                st[i] = st[i] + n_existing - 1 if r.random() < 0.6 else r.randrange(n_existing)
+        out.append(st)
+    return out
